@@ -259,6 +259,10 @@ def run_action(arm, act):
         elif n == 'DAbort':
             arm.registers.take_data_abort_exception(
                 DataAbortException(DAbort.ALIGNMENT if act['alignment'] else DAbort.PERMISSION, act['secondstage']))
+        elif n == 'CpsrWrite':
+            arm.registers.cpsr_write_by_instr(unlimbs(act['val']), act['mask'], act['ret'])
+        elif n == 'SpsrWrite':
+            arm.registers.spsr_write_by_instr(unlimbs(act['val']), act['mask'])
         elif n in ('MemAGet', 'MemUGet', 'MemUUnprivGet', 'MemASet', 'MemUSet', 'MemUUnprivSet', 'Translate'):
             addr, size = unlimbs(act['addr']), act['size']
             val = sum(b << (8 * i) for i, b in enumerate(act.get('val', [])))
